@@ -519,3 +519,35 @@ def deepcopy_hook_gaps(prog, ci, m):
         if k < n_:
             out.append((f, n_, k))
     return out
+
+
+def optional_none_fields(prog, ci):
+    """Fields of class ci that are None unless the caller of the constructor asks for something else: a class-level `f = None` whose only instance
+    assignments are `self.f = <param>` in __init__ under `<param> is not None`, or `self.f = <param>` with the parameter defaulting to None - and never
+    written elsewhere. An atom `self.f is None` holds for every object built the documented way."""
+    out = set()
+    init = ci.methods.get('__init__')
+    if init is None:
+        return out
+    dflt = q.param_defaults(init.node)
+    cand = {}
+    for st in ci.node.body:
+        if isinstance(st, ast.Assign) and len(st.targets) == 1 and isinstance(st.targets[0], ast.Name) and isinstance(st.value, ast.Constant) and st.value.value is None:
+            cand[st.targets[0].id] = 'class'
+    for m in ci.methods.values():
+        for c, f, k, n in prog.direct_writes(m):
+            if c != ci.name:
+                continue
+            if m is init and k == 'assign' and isinstance(n, ast.Assign) and isinstance(n.value, ast.Name) and dflt.get(n.value.id, 0) is None and n.value.id in dflt:
+                cand.setdefault(f, 'param')
+                continue
+            cand[f] = 'no'
+    return {f for f, v in cand.items() if v != 'no'}
+
+
+def optional_feature_on(atoms_, fnode):
+    """The path condition `atoms_` requires an optional keyword-only parameter of fnode (default None / False) to have been given: code that runs only when the
+    caller opts in to a new feature. The properties are stated for the documented calls, which do not."""
+    a = fnode.args
+    opt = {p_.arg for p_, d_ in zip(a.kwonlyargs, a.kw_defaults) if isinstance(d_, ast.Constant) and (d_.value is None or d_.value is False)}
+    return any((op == 'is not' and l in opt and r_ == 'None') or (op == 'truthy' and l in opt) for op, l, r_ in atoms_)
